@@ -1388,6 +1388,23 @@ pub fn run_door(door: Door, b: &[u8], s: &mut Sink, case: &mut Case) {
             }
             _ => {}
         },
+        Door::TcpOpts => {
+            s.enter(case, "TcpOptionsIterator::from_slice");
+            drive_tcp_options(s, "raw.opt", TcpOptionsIterator::from_slice(b));
+            s.ok.push("TcpOptionsIterator::from_slice");
+            s.enter(case, "TcpOptions::try_from_slice");
+            let r = TcpOptions::try_from_slice(b);
+            if s.res(&r) {
+                let o = r.as_ref().unwrap();
+                s.dbg("len", &(o.len(), o.data_offset(), o.is_empty()));
+                drive_tcp_options(s, "opts.iter", o.elements_iter());
+            }
+        }
+        Door::NdpOpts => {
+            s.enter(case, "NdpOptionsIterator::from_slice");
+            drive_ndp_options(s, "raw.ndp", icmpv6::NdpOptionsIterator::from_slice(b));
+            s.ok.push("NdpOptionsIterator::from_slice");
+        }
     }
 }
 
